@@ -95,6 +95,8 @@ func c04ChildOps(root string, c *Case, start int, hash int64, stale []int64, out
 	}
 	w := newC03WorldAt(root, c.S)
 	w.faults = true
+	w.emptySig = "c04:empty-chunk-offered"
+	w.blockedSig = "c04:recovery-blocked"
 	w.dirsize = c.Z[0]
 	w.hash = hash
 	w.staleObs = stale
@@ -319,28 +321,53 @@ func c04RunOps(c *Case, root string, addFail func(Fail), fails *[]Fail) (string,
 			addFail(f)
 		}
 		skipped = append(skipped, res.skips...)
-		// byte identity of everything forwarded by this process, against the bytes given to Accept
+		// Everything any consumer of this process received: never an empty chunk, and always exactly the bytes given
+		// to Accept under that ID / the complete content the file was created with (a file planted by the list)
 		for _, t := range res.taken {
 			id, hexData := t[0], t[1]
+			if hexData == "" {
+				addFail(Fail{"c04:empty-chunk-offered", fmt.Sprintf("consumer received an EMPTY chunk under the name %s (%s): a zero-length chunk file must be treated as corrupt, removed and counted, not forwarded", id, c04OriginOf(ops, c, id))})
+			}
 			known := false
+			accepted := false
+			var planted []string
 			for _, op := range ops {
-				if (op.Code == opAccept || op.Code == opTamper) && int(op.A) < len(c.S) && string(c.S[op.A]) == id {
+				if int(op.A) >= len(c.S) || string(c.S[op.A]) != id {
+					continue
+				}
+				switch {
+				case op.Code == opAccept:
+					known, accepted = true, true
+					want := fmt.Sprintf("%x", c.S[op.B])
+					if want != hexData {
+						addFail(Fail{"c04:altered-chunk-offered", fmt.Sprintf("chunk %s offered with %d bytes (%s), accepted with %d bytes (%s); %s", id, len(hexData)/2, hexData, len(want)/2, want, c04FaultOf(ops, c, id, killed))})
+						if hexData != "" {
+							sig := "c04:short-write-forwarded"
+							if killed != "" {
+								sig = "c04:crash-prefix-forwarded"
+							}
+							addFail(Fail{sig, fmt.Sprintf("chunk %s forwarded with %d of %d bytes (%s) after %s", id, len(hexData)/2, len(want)/2, hexData, c04FaultOf(ops, c, id, killed))})
+						}
+					}
+				case op.Code == opTamper && op.B == 1 && int(op.C) < len(c.S):
+					known = true
+					planted = append(planted, fmt.Sprintf("%x", c.S[op.C]))
+				case op.Code == opTamper || op.Code == opHold:
 					known = true
 				}
 			}
 			if !known || !c03Match(id) {
 				addFail(Fail{"c04:foreign-file-forwarded", fmt.Sprintf("consumer received a chunk under the name %s (%d bytes %s) which no chunk was ever accepted under (leftover of an interrupted write?)", id, len(hexData)/2, hexData)})
 			}
-			for _, op := range ops {
-				if op.Code == opAccept && int(op.A) < len(c.S) && string(c.S[op.A]) == id {
-					want := fmt.Sprintf("%x", c.S[op.B])
-					if want != hexData {
-						sig := "c04:short-write-forwarded"
-						if killed != "" {
-							sig = "c04:crash-prefix-forwarded"
-						}
-						addFail(Fail{sig, fmt.Sprintf("chunk %s forwarded with %d of %d bytes (%s) after %s", id, len(hexData)/2, len(want)/2, hexData, c04FaultOf(ops, c, id, killed))})
+			if known && !accepted {
+				ok := false
+				for _, pl := range planted {
+					if pl == hexData {
+						ok = true
 					}
+				}
+				if !ok {
+					addFail(Fail{"c04:altered-chunk-offered", fmt.Sprintf("chunk %s offered with %d bytes (%s); the file was created with %v", id, len(hexData)/2, hexData, planted)})
 				}
 			}
 		}
@@ -382,6 +409,24 @@ func c04RunOps(c *Case, root string, addFail func(Fail), fails *[]Fail) (string,
 		final = "childfail:rounds"
 	}
 	return final, *fails, skipped
+}
+
+// c04OriginOf says where the file under the name came from, as far as the operation list tells
+func c04OriginOf(ops []bufOp, c *Case, id string) string {
+	for _, op := range ops {
+		if int(op.A) >= len(c.S) || string(c.S[op.A]) != id {
+			continue
+		}
+		switch op.Code {
+		case opAccept:
+			return fmt.Sprintf("accepted with %d bytes, write script %d", len(c.S[op.B]), op.C)
+		case opTamper:
+			return "an empty file found in the directory at start-up"
+		case opHold:
+			return "the harness's FIFO"
+		}
+	}
+	return "unknown origin"
 }
 
 func c04FaultOf(ops []bufOp, c *Case, id string, killed string) string {
@@ -562,10 +607,42 @@ func c04Gen(g *Gen) {
 						for j := 0; j < 6; j++ {
 							ops = append(ops, bufOp{opTake, 0, 0, 0}, bufOp{opConsumed, 0, 0, 0})
 						}
-						ops = append(ops, bufOp{opDestroy, 0, 0, 0}, bufOp{opFinish, 0, 0, 0})
+						ops = append(ops, bufOp{opProbe, 0, 0, 0}, bufOp{opDestroy, 0, 0, 0}, bufOp{opFinish, 0, 0, 0})
 						ops = c04Trim(pool, ops)
 						emit(pool, ops, fmt.Sprintf("queue-kind%d", ws%16))
 					}
+				}
+			}
+		}
+	}
+	// ---- an EMPTY file under a valid chunk name at every position of the start-up directory (what a crash of an
+	// agent without temp+rename, or anything else, may have left): dropped and counted, never offered ----
+	for nfiles := 1; nfiles <= 4; nfiles++ {
+		for pos := 0; pos < nfiles; pos++ {
+			for _, M := range []int64{1, 2} {
+				for _, Q := range []int64{int64(nfiles), int64(nfiles) + 2} {
+					if g.Tier == "quick" && nfiles == 4 && Q != int64(nfiles) {
+						continue
+					}
+					var pool [][]byte
+					var ops []bufOp
+					for j := 0; j < nfiles; j++ {
+						pool = append(pool, []byte(fmt.Sprintf("e%d%d%02d.ff", nfiles, pos, j)))
+						ni := int64(len(pool) - 1)
+						if j == pos {
+							pool = append(pool, []byte{})
+						} else {
+							pool = append(pool, r.Bytes(r.Range(1, 12), []byte("abcdefghijklmnopqrstuvwxyz")))
+						}
+						ops = append(ops, bufOp{opTamper, ni, 1, int64(len(pool) - 1)})
+					}
+					ops = append(ops, bufOp{opRestart, Q, M, 100000}, bufOp{opRegister, 0, 0, 0})
+					for j := 0; j < nfiles+1; j++ {
+						ops = append(ops, bufOp{opTake, 0, 0, 0}, bufOp{opConsumed, 0, 0, 0})
+					}
+					ops = append(ops, bufOp{opProbe, 0, 0, 0}, bufOp{opDestroy, 0, 0, 0}, bufOp{opFinish, 0, 0, 0})
+					ops = c04Trim(pool, ops)
+					emit(pool, ops, "empty-file-at-startup")
 				}
 			}
 		}
@@ -600,7 +677,7 @@ func c04Gen(g *Gen) {
 		for j := 0; j < nfiles+1; j++ {
 			ops = append(ops, bufOp{opTake, 0, 0, 0}, bufOp{opConsumed, 0, 0, 0})
 		}
-		ops = append(ops, bufOp{opDestroy, 0, 0, 0}, bufOp{opFinish, 0, 0, 0})
+		ops = append(ops, bufOp{opProbe, 0, 0, 0}, bufOp{opDestroy, 0, 0, 0}, bufOp{opFinish, 0, 0, 0})
 		ops = c04Trim(pool, ops)
 		emit(pool, ops, "damaged-among-recovered")
 	}
